@@ -314,6 +314,23 @@ theorem hqr_total_run (N : Nat) (evs : List (HqrEv ℝ)) (st st' : HqrSt ℝ) (h
       rw [ih st1 hn1 h (h2 st1 hs)]
       exact hqr_total_step N st st1 ev hN hs h1
 
+/-! ### the frame in which an exceptional shift is invisible -/
+
+/-- diagonal of `H + exshift·I`: the matrix that stays (orthogonally) similar to the one the iteration
+started from -/
+noncomputable def unshifted (st : HqrSt ℝ) (i : Nat) : ℝ := st.diag i + st.exshift
+
+/-- the two statements of the C++ that `applyShift` transcribes — the loop `H(i,i) -= x` over the window
+and `exshift += x` — cancel on the window -/
+theorem applyShift_unshifted (st : HqrSt ℝ) (x : ℝ) (i : Nat) (hi : i < st.n) :
+    unshifted (applyShift st x) i = unshifted st i := by
+  simp [unshifted, applyShift, hi]
+
+/-- NOT the model: the variant `exshift = x` (a seeded change of round b) of `applyShift`, kept to show
+that the cancellation is a property of the transcribed text and not of every such update -/
+def applyShiftOverwrite (st : HqrSt ℝ) (x : ℝ) : HqrSt ℝ :=
+  { st with diag := fun i => if i < st.n then st.diag i - x else st.diag i, exshift := x, shifts := x :: st.shifts }
+
 /-! ### tql2: the implicit shift -/
 
 /-- `p` of the shift computation -/
